@@ -84,6 +84,7 @@ def run_model(case, ctx):
         cfg = mlgen.gen_model_cfg(rng, D, classes=("UNet", "ResNet", "DilResNet", "ConvBlock"), stable_only=False, equivariant=eq)
         if not eq:
             cfg["bias"] = ["auto", True, False][int(rng.integers(3))]
+            cfg["kernel_size"] = int([1, 3, 3, 5][int(rng.integers(4))])
             if cfg["cls"] == "ConvBlock":
                 # the conventional ConvBlock is a scalar-channel block
                 cfg["in_sig"] = [[[0, 0], int(rng.integers(1, 4))]]
